@@ -25,6 +25,7 @@ type didModel struct {
 	verifyFn map[*ssa.Function]bool // functions that directly call PubKey.VerifySignature
 	proofFn  map[*ssa.Function]bool // module functions from which a verifyFn is reachable (static calls)
 	ops      []StoreOp
+	extraOps []StoreOp // operations under other prefix variables of the module's store (further families)
 }
 
 func buildDidModel(p *Prog) *didModel {
@@ -34,6 +35,11 @@ func buildDidModel(p *Prog) *didModel {
 	root := didKeeperPkg + ".Keeper.storeKey"
 	for _, so := range p.StoreOps() {
 		if so.KeyRoot != root {
+			continue
+		}
+		// a further family of the module (its own prefix variable next to DIDKeyPrefix) is outside the DID-entry rules
+		if pn := PrefixName(so.Prefix); pn != "" && so.Prefix.Op == "gval" && !strings.HasSuffix(pn, "types.DIDKeyPrefix") {
+			m.extraOps = append(m.extraOps, so)
 			continue
 		}
 		m.ops = append(m.ops, so)
@@ -187,6 +193,23 @@ func didRules(p *Prog, r *Report, clause string, want func(string) bool) *didMod
 			} else {
 				r.Undecided(kp("FAMILY", "did-store-op:"+FuncName(so.Fn)+"#"+so.Op), "every operation on the did store is a keyed accessor", p.Pos(so.Instr.Pos()),
 					fmt.Sprintf("%s performs %s with key %s outside the accessor shape", FuncName(so.Fn), so.Op, so.Key))
+			}
+		}
+		// further families of the did store: their prefix does not overlap the DID prefix (entries can never be read as DID entries)
+		if len(m.extraOps) > 0 {
+			dv, dok, _, _ := globalByteSliceLit(p, Rel("x/did/types"), "DIDKeyPrefix")
+			seen := map[string]bool{}
+			for _, so := range m.extraOps {
+				pn := PrefixName(so.Prefix)
+				if seen[pn] {
+					continue
+				}
+				seen[pn] = true
+				pp, name := splitGlobal(pn)
+				ev, eok, re, pos := globalByteSliceLit(p, pp, name)
+				clash := !dok || !eok || re > 0 || len(ev) == 0 || strings.HasPrefix(string(ev), string(dv)) || strings.HasPrefix(string(dv), string(ev))
+				r.Check(!clash, kp("CONST", "prefix-free:DID|"+familyOfPrefix(pn)), "a further family of the did store lives under a constant prefix that does not overlap the DID prefix", p.Pos(pos),
+					fmt.Sprintf("%x vs %x", dv, ev), fmt.Sprintf("prefix %s (%x, literal=%v, reassigned=%d) overlaps the DID prefix %x: its entries share store keys with DID documents", pn, ev, eok, re, dv))
 			}
 		}
 		nDel := 0
